@@ -7,11 +7,13 @@ CONSTANTS
   Shapes <- S_nwLL_wmL
   Ctl <- C_mixS
   Closer = TRUE
+  Rd <- R_none
   ControlTakesLock = TRUE
   FlushAtomic = TRUE
   LatchChecked = TRUE
   CloseLatches = TRUE
   TimeoutReleases = FALSE
+  HandlerControlPath = TRUE
   Fifo = TRUE
   OnlyBad = FALSE
   Family = "sim"
